@@ -7,5 +7,6 @@ CONSTANTS
   Feat = {}
   EmitMod = 1
   EmitRem = 0
+  SpecMod = 1
 CONSTRAINT TraceVerdict
 CHECK_DEADLOCK FALSE
